@@ -59,6 +59,60 @@ def hkey(v):
     raise AnalysisError(f"non-constant used as a key: {type(v).__name__}")
 
 
+class OpaqueToken:
+    """a value of which only identity is known: the bytes of an array (x.tobytes()), the address of an object (id(x)).  Two tokens are the same value
+    exactly when they were made from the same object by the same operation; whether tokens of different objects are equal is not known"""
+
+    def __init__(self, kind, of):
+        self.kind, self.of = kind, of
+
+    def __repr__(self):
+        return f"{self.kind}({type(self.of).__name__})"
+
+
+def skey(v):
+    """key of a value in a mapping: the constant key where there is one, else a structural key (the same expression / the same object gives the same key;
+    different structural keys may or may not be equal values - see definitely_different)"""
+    try:
+        return hkey(v)
+    except AnalysisError:
+        pass
+    if isinstance(v, Masked):
+        return skey(v.val)
+    if isinstance(v, Tup):
+        return ("tup", tuple(skey(i) for i in v.items))
+    if isinstance(v, sp.Basic):
+        return ("sym", sp.srepr(v))
+    if isinstance(v, OpaqueToken):
+        return ("tok", v.kind, id(v.of))
+    if isinstance(v, Obj) and "__fields__" in v.attrs:
+        return ("nt", tuple(skey(v.attrs[f]) for f in v.attrs["__fields__"]))
+    if isinstance(v, (LibV,)):
+        return ("lib", v.name)
+    if isinstance(v, Opaque):
+        return ("opaque", v.name)       # the same access path into the same unexamined object
+    raise AnalysisError(f"value used as a key that has neither a constant nor a structural key: {type(v).__name__}")
+
+
+def definitely_different(a, b) -> bool:
+    """two key values that cannot be equal: constants that differ, tuples of different length or with a component that cannot be equal"""
+    def is_const(x):
+        try:
+            hkey(x)
+            return True
+        except AnalysisError:
+            return False
+    if is_const(a) and is_const(b):
+        return hkey(a) != hkey(b)
+    ta = a.items if isinstance(a, Tup) else ([a.attrs[f] for f in a.attrs["__fields__"]] if isinstance(a, Obj) and "__fields__" in a.attrs else None)
+    tb = b.items if isinstance(b, Tup) else ([b.attrs[f] for f in b.attrs["__fields__"]] if isinstance(b, Obj) and "__fields__" in b.attrs else None)
+    if ta is not None and tb is not None:
+        return len(ta) != len(tb) or any(definitely_different(x, y) for x, y in zip(ta, tb))
+    if (ta is None) != (tb is None) and (is_const(a) or is_const(b)):
+        return True
+    return False
+
+
 class _KeyDict:
     """mapping keyed by hkey(value) that remembers the original key objects"""
 
@@ -69,19 +123,27 @@ class _KeyDict:
                 self[k] = v
 
     def __setitem__(self, k, v):
-        self.m[hkey(k)] = (k, v)
+        self.m[skey(k)] = (k, v)
 
     def __getitem__(self, k):
-        return self.m[hkey(k)][1]
+        return self.m[skey(k)][1]
 
     def __contains__(self, k):
         try:
-            return hkey(k) in self.m
+            return skey(k) in self.m
         except AnalysisError:
             return False
 
     def get(self, k, default=None):
-        return self.m[hkey(k)][1] if k in self else default
+        return self.m[skey(k)][1] if k in self else default
+
+    def membership(self, k):
+        """True / False when it is certain that k is / is not a key, None when a stored key might be an equal value"""
+        if k in self:
+            return True
+        if all(definitely_different(k, kk) for kk, _ in self.m.values()):
+            return False
+        return None
 
     def keys(self):
         return [k for k, _ in self.m.values()]
@@ -822,7 +884,17 @@ class Ev:
 
             st = stores(init)
             if st is not None:
-                return self.eval(st.value, {selfname: obj, "__self__": obj}, mod)
+                env_ = {selfname: obj, "__self__": obj}
+                # the right-hand side may name constructor parameters: one that __init__ keeps unchanged as self.<x> = <parameter> is read back from the object;
+                # any other is not known for an object that was not built through its constructor
+                params = {a_.arg for a_ in init.args.posonlyargs + init.args.args[1:] + init.args.kwonlyargs}
+                for nm in {x.id for x in ast.walk(st.value) if isinstance(x, ast.Name) and x.id in params}:
+                    kept = [s2.targets[0].attr for s2 in init.body if isinstance(s2, ast.Assign) and len(s2.targets) == 1 and isinstance(s2.targets[0], ast.Attribute)
+                            and isinstance(s2.targets[0].value, ast.Name) and s2.targets[0].value.id == selfname and isinstance(s2.value, ast.Name) and s2.value.id == nm]
+                    if not kept:
+                        raise self.err(f"attribute {name} is computed in __init__ from the parameter {nm}, which an object not built through its constructor does not have", st, mod)
+                    env_[nm] = self.get_attr(obj, kept[0], st, mod)
+                return self.eval(st.value, env_, mod)
             for call in ast.walk(init):
                 if (isinstance(call, ast.Call) and isinstance(call.func, ast.Attribute)
                         and isinstance(call.func.value, ast.Name) and call.func.value.id == selfname):
@@ -1335,6 +1407,8 @@ class Ev:
                 r = a.is_Integer and int(a) in range(b.lo, b.hi, b.step)
             elif isinstance(b, DictV) and const(a):
                 r = a in b.d
+            elif isinstance(b, DictV) and b.d.membership(a) is not None:
+                r = b.d.membership(a)       # a key built from data: the same expression is a hit, a key that differs in a constant component is a miss
             elif isinstance(b, str) and isinstance(a, str):
                 r = a in b
             elif isinstance(b, Tup) and not b.items:
@@ -2505,7 +2579,7 @@ STR_METHODS = {"lower", "upper", "strip", "split", "startswith", "endswith", "jo
                "isalpha", "isalnum", "isspace", "title", "capitalize", "swapcase", "casefold", "splitlines", "rsplit", "removeprefix", "removesuffix",
                "expandtabs", "isnumeric", "isdecimal", "islower", "isupper"}
 
-BUILTINS = {"id", "frozenset", "len", "range", "tuple", "list", "sorted", "zip", "map", "int", "float", "str", "sum", "abs", "min",
+BUILTINS = {"id", "vars", "frozenset", "len", "range", "tuple", "list", "sorted", "zip", "map", "int", "float", "str", "sum", "abs", "min",
             "max", "round", "set", "dict", "enumerate", "isinstance", "next", "reversed", "any", "all", "open",
             "print", "type", "callable", "getattr", "repr", "hash", "bool", "slice", "setattr", "property", "hasattr", "object", "filter", "staticmethod"}
 
@@ -2984,7 +3058,64 @@ def lib_dict_values(ev, a, k, n, mod):
 
 def lib_dict_get(ev, a, k, n, mod):
     d, key = a[0], a[1]
+    if d.d.membership(key) is None:
+        raise ev.err("dict.get with a key built from data that may or may not equal a stored key", n, mod)
     return d.d.get(key, a[2] if len(a) > 2 else None)
+
+
+def lib_id(ev, a, k, n, mod):
+    """id(x): the address of the object - a value of which only 'same object, same address' is known"""
+    return OpaqueToken("id", a[0])
+
+
+def lib_np_shape(ev, a, k, n, mod):
+    return ev.get_attr(a[0], "shape", n, mod)
+
+
+class AttrsView:
+    """vars(obj): the instance dictionary itself - reads and writes go to the object's attributes"""
+
+    def __init__(self, obj):
+        self.obj = obj
+
+    def sym_getattr(self, ev, name, node, mod):
+        if name in ("setdefault", "get", "pop", "update", "keys", "items", "values"):
+            return BoundLib("vars." + name, self)
+        raise ev.err(f"attribute {name} of vars(object)", node, mod)
+
+    def sym_subscript(self, ev, idx, n, mod):
+        if isinstance(idx, str) and idx in self.obj.attrs:
+            return self.obj.attrs[idx]
+        if isinstance(idx, str):
+            raise RaisedV("KeyError")
+        raise ev.err("vars(object)[non-constant]", n, mod)
+
+    def sym_contains(self, ev, item, n, mod):
+        if not isinstance(item, str):
+            raise ev.err("membership of a non-constant in vars(object)", n, mod)
+        return item in self.obj.attrs
+
+
+def lib_vars(ev, a, k, n, mod):
+    if len(a) == 1 and isinstance(a[0], Obj) and not a[0].cls.startswith("ext:"):
+        return AttrsView(a[0])
+    raise ev.err("vars() of something that is not an instance of a repository class", n, mod)
+
+
+def lib_vars_setdefault(ev, a, k, n, mod):
+    view, name = a[0], a[1]
+    if not isinstance(name, str):
+        raise ev.err("vars(object).setdefault with a non-constant name", n, mod)
+    if name not in view.obj.attrs:
+        view.obj.attrs[name] = a[2] if len(a) > 2 else None
+    return view.obj.attrs[name]
+
+
+def lib_vars_get(ev, a, k, n, mod):
+    view, name = a[0], a[1]
+    if not isinstance(name, str):
+        raise ev.err("vars(object).get with a non-constant name", n, mod)
+    return view.obj.attrs.get(name, a[2] if len(a) > 2 else None)
 
 
 def lib_abs(ev, a, k, n, mod):
@@ -3000,7 +3131,8 @@ LIB = {
     "numpy.where": lib_where, "numpy.gradient": lib_gradient, "numpy.abs": lib_abs, "abs": lib_abs,
     "len": lib_len, "range": lib_range, "tuple": lib_tuple, "list": lib_list, "sorted": lib_sorted,
     "zip": lib_zip, "itertools.product": lib_product, "itertools.permutations": lib_permutations,
-    "set": lib_set, "int": lib_int, "float": lib_float, "str": lib_str, "repr": lib_repr, "sum": lib_sum,
+    "set": lib_set, "int": lib_int, "float": lib_float, "str": lib_str, "repr": lib_repr, "sum": lib_sum, "id": lib_id, "vars": lib_vars,
+    "vars.setdefault": lib_vars_setdefault, "vars.get": lib_vars_get, "numpy.shape": lib_np_shape,
     "isinstance": lib_isinstance,
     "pint.Quantity": lib_quantity, "pint.Quantity.to": lib_qty_to,
     "dict.items": lib_dict_items, "dict.keys": lib_dict_keys, "dict.values": lib_dict_values, "dict.get": lib_dict_get,
